@@ -1155,6 +1155,8 @@ fn scanrace_case(rng: &mut Rng, out: &mut Out, dir: &str, idx: u64) {
         }
         match b.build() { Ok(s) => Arc::new(s), Err(_) => return }
     };
+    // with TTL on, the background sweeper runs as well (and has to stop when the store is dropped)
+    if ttl && rng.chance(2, 3) { store.start_ttl_sweeper(None); out.count("scanrace with the background sweeper running"); }
     let nkeys = rng.range(2, 12);
     let key = |id: u64| format!("sr{:03}", id).into_bytes();
     let val = |id: u64, w: u64, round: u64, pad: usize| { let mut v = format!("{}|{}|{}|", id, w, round).into_bytes(); v.resize(v.len() + pad, b'.'); v };
